@@ -28,7 +28,7 @@ pub const BUILTINS: [&str; 24] = [
     "contains", "size", "max", "min", "startsWith", "endsWith", "string", "bytes", "double", "int", "uint", "matches", "duration", "timestamp", "getFullYear", "getMonth", "getDayOfYear", "getDayOfMonth",
     "getDate", "getDayOfWeek", "getHours", "getMinutes", "getSeconds", "getMilliseconds",
 ];
-pub const HOST_FUNCS: [&str; 19] = ["t", "fail", "fail1", "h0", "h1", "h2", "h3", "h4", "m0", "m1", "m2", "m3", "va", "q", "q2", "idf", "tf", "noop", "thisopt"];
+pub const HOST_FUNCS: [&str; 20] = ["t", "fail", "fail1", "h0", "h1", "h2", "h3", "h4", "m0", "m1", "m2", "m3", "va", "q", "q2", "idf", "tf", "noop", "thisopt", "peek"];
 
 /// table for the table-driven host predicate/transformer `q(x)`: result per argument, `None` = raise an error
 pub type Table = Vec<(V, Option<V>)>;
@@ -827,6 +827,18 @@ fn eval_host(name: &str, a: &mut Args, st: &mut St) -> Res {
         }
         "idf" => Err(unsup("identifier extractor (C20)")),
         "thisopt" => Err(unsup("optional receiver (C20)")),
+        // the host function reads a variable *by name* from the context it is called in
+        "peek" => {
+            let v = a.arg(st)?;
+            st.calls += 1;
+            match v {
+                V::Str(n) => match st.lookup(&n) {
+                    Some(x) => Ok(x.clone()),
+                    None => Err(Stop::Err(ErrClass::Undeclared(n))),
+                },
+                _ => Err(other()),
+            }
+        }
         "m0" | "m1" | "m2" | "m3" => {
             let this = a.this(st)?;
             for _ in 1..n_params(name) {
